@@ -207,6 +207,26 @@ pub fn run_histories(cfg: &Cfg, prop: Prop) -> i32 {
             managed = next;
             let running = render_running(&managed, &mut r);
             let results: BTreeMap<String, Option<Sets>> = managed.iter().filter(|m| m.annotation_ok).map(|m| (m.expr.clone(), m.result.clone())).collect();
+            // ---- C02 ranges over all installed states, not only those the agent wrote: now and
+            // then somebody has hot-fixed an installed policy by hand with a match type the agent
+            // never writes. The agent may refuse to touch such an instance (it does: the run
+            // fails before anything is sent) - but whatever it sends must not leave that filter
+            // accepting
+            let mut hotfixed: Option<Config> = None;
+            if prop == Prop::C02 && step > 0 && r.chance(1, 8) {
+                let names: Vec<String> = eph.policies.iter().filter(|(_, p)| p.terms.iter().any(|t| t.action == Some(junos::Action::Accept))).map(|(n, _)| n.clone()).collect();
+                if !names.is_empty() {
+                    let unedited = eph.clone();
+                    let name = names[r.below(names.len())].clone();
+                    if let Some(t) = eph.policies.get_mut(&name).and_then(|p| p.terms.iter_mut().find(|t| t.action == Some(junos::Action::Accept))) {
+                        let addr = if t.family.as_deref() == Some("inet6") { "2001:db8:ffff::/48" } else { "203.0.113.0/24" };
+                        t.filters.insert((addr.to_string(), (*r.pick(&["orlonger", "exact", "longer"])).to_string()));
+                        hotfixed = Some(unedited);
+                        labels.push(format!("{name}:hand-edited-route-filter"));
+                        rep.count("runs_over_a_hand_edited_installed_policy");
+                    }
+                }
+            }
             let before = eph.clone();
             let key = format!("{before:?}|{managed:?}");
             let wit = |extra: Value, history: &Vec<Value>| json!({"case_index": idx, "seed": cfg.seed, "step": step, "history": history, "inputs": labels,
@@ -214,6 +234,12 @@ pub fn run_histories(cfg: &Cfg, prop: Prop) -> i32 {
             // ---- the agent's run
             let out = match agent_step(&running, &eph, &results) {
                 Ok(o) => o,
+                Err(_) if hotfixed.is_some() => {
+                    // refused as a whole, nothing sent: fail-closed. The operator reverts the edit.
+                    rep.count("runs_refused_over_a_hand_edited_installed_policy");
+                    eph = hotfixed.take().unwrap();
+                    continue 'steps;
+                }
                 Err(e) => {
                     // the state `eph` was produced by the agent itself: it must be able to read it back
                     if prop == Prop::C01 {
@@ -287,7 +313,8 @@ pub fn run_histories(cfg: &Cfg, prop: Prop) -> i32 {
                             let allowed = by_name.get(pname.as_str()).and_then(|m| m.result.clone()).unwrap_or_default();
                             let why = pol.fail_open_reasons(&allowed.0, &allowed.1);
                             if !why.is_empty() {
-                                let class = if why.iter().any(|w| w.contains("no route-filter")) { "accept-term-without-route-filter" }
+                                let class = if why.iter().any(|w| w.contains("unparseable route-filter")) { "hand-edited-route-filter-left-accepting" }
+                                    else if why.iter().any(|w| w.contains("no route-filter")) { "accept-term-without-route-filter" }
                                     else if why.iter().any(|w| w.contains("not in the evaluated set")) { "accepts-range-outside-evaluated-set" }
                                     else if why.iter().any(|w| w.contains("unconditional reject")) { "no-default-reject" }
                                     else if why.iter().any(|w| w.contains("not restricted to one")) { "accept-term-without-family" }
